@@ -4,11 +4,12 @@ The prompt contains only the property text; nothing from /verif is shown to the 
 import json, os, subprocess, sys
 V = os.path.dirname(os.path.dirname(os.path.abspath(__file__)))
 pid = sys.argv[1]
-ROUND2 = len(sys.argv) > 2 and sys.argv[2] == '2'
-VA, VB = ('C', 'D') if ROUND2 else ('A', 'B')
+RND = int(sys.argv[2]) if len(sys.argv) > 2 else 1
+ROUND2 = RND >= 2
+VA, VB = 'ABCDEFGH'[2 * (RND - 1)], 'ABCDEFGH'[2 * (RND - 1) + 1]
 p = [json.loads(l) for l in open(os.path.join(V, 'properties.jsonl')) if json.loads(l)['id'] == pid][0]
-W = '/tmp/seedwt_%s%s' % (pid, '_r2' if ROUND2 else '')
-O = '/tmp/seedout_%s%s' % (pid, '_r2' if ROUND2 else '')
+W = '/tmp/seedwt_%s%s' % (pid, ('_r%d' % RND) if ROUND2 else '')
+O = '/tmp/seedout_%s%s' % (pid, ('_r%d' % RND) if ROUND2 else '')
 prev = ''
 if ROUND2:
     import glob
